@@ -121,6 +121,7 @@ func c04(c *Ctx) {
 	c04R6(c)
 	// the recorded sandbox id the guard compares with survives an upgrade (shared rule)
 	c05R9(c)
+	c04R7(c)
 }
 
 // pendingField is networkService.pendingPods
@@ -757,4 +758,80 @@ func c04R6(c *Ctx) {
 			return f, nil
 		})
 	c.Floor("C04.R6", "listed reasons", 3, len(alts))
+}
+
+// R7: the service lock is not re-entrant. sync.RWMutex read locks are not
+// recursive: a second RLock of a goroutine that already holds one blocks for
+// good as soon as a writer (the collector) is queued in between. No method of
+// the service acquires the service lock while it is held — neither directly nor
+// through a method of the same receiver it calls.
+func c04R7(c *Ctx) {
+	p := c.P
+	c.Rule("C04.R7", "no re-entrant acquisition of the service lock: at every Lock / RLock of the networkService mutex the lock is not already held, and no method called on the service while the lock is held acquires it (transitively, bound 3) — a recursive read lock deadlocks with a queued collector")
+	// methods of networkService that acquire the receiver's lock, transitively
+	acq := map[*FuncInfo]int{} // 0 unknown, 1 no, 2 yes
+	var acquires func(fn *FuncInfo, depth int) bool
+	acquires = func(fn *FuncInfo, depth int) bool {
+		if v := acq[fn]; v != 0 {
+			return v == 2
+		}
+		acq[fn] = 1
+		if fn.Decl.Body == nil || recvObj(fn) == nil || depth > 3 {
+			return false
+		}
+		la := NewLockAnalysis(p, fn)
+		lock := objID(recvObj(fn))
+		res := false
+		ast.Inspect(fn.Decl.Body, func(k ast.Node) bool {
+			call, ok := k.(*ast.CallExpr)
+			if !ok {
+				return true
+			}
+			if path, op := la.lockOp(call); path == lock && (op == "Lock" || op == "RLock") {
+				res = true
+			}
+			if sel, ok := ast.Unparen(call.Fun).(*ast.SelectorExpr); ok && identObj(fn.Info(), sel.X) == recvObj(fn) {
+				if h := p.FuncOf(Callee(fn.Info(), call)); h != nil && h != fn && acquires(h, depth+1) {
+					res = true
+				}
+			}
+			return true
+		})
+		if res {
+			acq[fn] = 2
+		}
+		return res
+	}
+	n := 0
+	for _, fn := range p.FuncsInPkg(daemonPkg) {
+		if fn.Decl.Recv == nil || recvTypeOf(fn) != "networkService" || fn.Decl.Body == nil || recvObj(fn) == nil {
+			continue
+		}
+		info := fn.Info()
+		la := NewLockAnalysis(p, fn)
+		lock := objID(recvObj(fn))
+		ast.Inspect(fn.Decl.Body, func(k ast.Node) bool {
+			call, ok := k.(*ast.CallExpr)
+			if !ok {
+				return true
+			}
+			if path, op := la.lockOp(call); path == lock && (op == "Lock" || op == "RLock") {
+				n++
+				held := la.HeldBefore(call)
+				_, has := held[lock]
+				c.Check(!has, "C04.R7", fn.Name+": the service lock is acquired while not held", p.Pos(call), fn.Key(), "held ∌ "+lock, "held="+held.String())
+				return true
+			}
+			if sel, ok := ast.Unparen(call.Fun).(*ast.SelectorExpr); ok && identObj(info, sel.X) == recvObj(fn) {
+				if h := p.FuncOf(Callee(info, call)); h != nil && h != fn && acquires(h, 0) {
+					n++
+					held := la.HeldBefore(call)
+					_, has := held[lock]
+					c.Check(!has, "C04.R7", fn.Name+": "+h.Name+" (which takes the service lock) is called while the lock is not held", p.Pos(call), fn.Key(), "held ∌ "+lock, "held="+held.String())
+				}
+			}
+			return true
+		})
+	}
+	c.Floor("C04.R7", "acquisitions of the service lock", 3, n)
 }
